@@ -244,7 +244,26 @@ def runAction (acc : EG × Subst) : Action → EG × Subst
     | some vs => (acc.1.setTable f ((acc.1.table f).filter (·.args != vs)), acc.2)
   | .panic => ({ acc.1 with err := true }, acc.2)
 
-def runActions (g : EG) (s : Subst) (as : List Action) : EG := (as.foldl runAction (g, s)).1
+/-- an action that fails — `panic`, a primitive that returns nothing, an unbound variable — halts
+the remaining actions of THIS match (`call_external_func` returning `None` stops the rule instance);
+the other matches of the iteration still run -/
+def halts (acc : EG × Subst) : Action → Bool
+  | .panic => true
+  | .prim _ op args =>
+    match args.mapM (evalTm acc.2) with
+    | none => true
+    | some vs => (primEval op vs).isNone
+  | .call _ _ args => (args.mapM (evalTm acc.2)).isNone
+  | .union a b => (evalTm acc.2 a).isNone || (evalTm acc.2 b).isNone
+  | .set _ args v => (args.mapM (evalTm acc.2)).isNone || (evalTm acc.2 v).isNone
+  | .subsume _ args => (args.mapM (evalTm acc.2)).isNone
+  | .delete _ args => (args.mapM (evalTm acc.2)).isNone
+
+def runActionsFrom : EG × Subst → List Action → EG
+  | acc, [] => acc.1
+  | acc, a :: rest => if halts acc a then (runAction acc a).1 else runActionsFrom (runAction acc a) rest
+
+def runActions (g : EG) (s : Subst) (as : List Action) : EG := runActionsFrom (g, s) as
 
 structure Rule where
   body : List Atom
